@@ -52,6 +52,10 @@ def size_spec(rng, nbits):
         ls = []
         for _ in range(rng.randrange(0, 3)):
             ls.append([[["cmp", {"ref": "SEL", "op": "==", "lit": str(rng.randrange(10, 20)), "cal": True}]], rng.choice([8, 16, 0])])
+        if rng.random() < 0.5:
+            # an entry whose comparison LIST holds only in part must not match (all of its comparisons are required)
+            ls.append([[["cmp", {"ref": "SEL", "op": "==", "lit": "3", "cal": True}], ["cmp", {"ref": "SEL", "op": ">", "lit": "5", "cal": True}]],
+                       rng.choice([8, 24, 0])])
         ls.append([[["cmp", {"ref": "SEL", "op": rng.choice(["==", "<=", "geq"]), "lit": "3", "cal": rng.random() < 0.5}]], nbits])
         ls.append([[["cmp", {"ref": "SEL", "op": "!=", "lit": "99", "cal": True}]], nbits + 8])
         return ["lookup", ls], [("SEL", {"cls": "CInt", "v": ["i", 3], "raw": ["i", 3]})]
